@@ -150,7 +150,8 @@ func (ex *Exec) VerifyFunc(fn *ssa.Function, fc *contract.Func, cs *contract.Cas
 	entry := st.Clone()
 	entry.Fr = nil
 	ex.entryOld = entry
-	defer func() { ex.entryOld = nil }()
+	ex.entryArgs = args
+	defer func() { ex.entryOld = nil; ex.entryArgs = nil }()
 	outs := ex.Run(fn, st, args, nil)
 	nret := 0
 	for _, o := range outs {
@@ -205,7 +206,22 @@ func (ex *Exec) VerifyFunc(fn *ssa.Function, fc *contract.Func, cs *contract.Cas
 func (ex *Exec) frameObligations(st, entry *State, fn *ssa.Function, fc *contract.Func, args []Val, pos string) {
 	sc := ex.scopeFor(fn, entry, nil, args, nil)
 	allowed := map[string][]string{} // heap key -> refs
+	anyRef := map[string]bool{}
 	for _, loc := range fc.Assigns {
+		if root, names, t, ok := ex.typeLoc(sc, loc); ok {
+			var ls []leaf
+			leaves(t, nil, "", &ls)
+			for _, l := range ls {
+				n := names
+				if l.Names != "" {
+					n += "." + l.Names
+				}
+				for _, suf := range leafSuffixes(l.Type) {
+					anyRef[ex.heapKey(root, n, suf)] = true
+				}
+			}
+			continue
+		}
 		p, t := ex.resolveLoc(sc, loc)
 		if p.Obj != nil || p.Glob != "" || p.Elem != nil {
 			continue
@@ -230,7 +246,7 @@ func (ex *Exec) frameObligations(st, entry *State, fn *ssa.Function, fc *contrac
 	for _, k := range st.ModifiedHeapKeys() {
 		newArr := st.Heap[k]
 		oldArr := ex.heap0Arr(k, ex.heapSort[k])
-		if newArr == oldArr {
+		if newArr == oldArr || anyRef[k] {
 			continue
 		}
 		x := ex.boundName("x")
@@ -523,3 +539,22 @@ func sortedKeys(m map[string]bool) []string {
 }
 
 var _ = ast.Inspect
+
+// leafSort is the value sort of the heap array of a leaf (with suffix).
+func (ex *Exec) leafSort(t types.Type, suffix string) string {
+	switch suffix {
+	case "#errnil":
+		return "Bool"
+	case "#len":
+		return "Int"
+	case "#arr":
+		return ArrSort(t.Underlying().(*types.Slice).Elem())
+	case "#mval":
+		m := t.Underlying().(*types.Map)
+		return "(Array " + mustSort(m.Key()) + " " + mustSort(m.Elem()) + ")"
+	case "#mdom":
+		m := t.Underlying().(*types.Map)
+		return "(Array " + mustSort(m.Key()) + " Bool)"
+	}
+	return mustSort(t)
+}
